@@ -1,11 +1,14 @@
 #!/bin/bash
-# usage: mutate.sh <prop> <budget_s> <file> <python-expr-replacing s>   (applies edit to /repo, runs check, reverts)
-# quick sensitivity experiments; never leaves /repo modified
+# usage: mutate.sh <prop> <budget_s> <file relative to repo> <old text> <new text>
+# Sensitivity experiment on a SCRATCH COPY of /repo (never touches /repo, /verif/evidence or /verif/replays):
+# replaces the single occurrence of <old text> in <file>, runs the check against the copy, prints the outcome,
+# removes the copy. The minimised replays of the run are kept under /tmp/mut-keep/<prop>/ for inspection.
 set -u
 prop=$1; budget=$2; file=$3; old=$4; new=$5
-cd /repo || exit 2
-if ! git diff --quiet -- "$file"; then echo "refusing: $file has uncommitted changes"; exit 2; fi
-python3 - "$file" "$old" "$new" <<'PY'
+S=/tmp/mut-$$
+mkdir -p $S/repo
+rsync -a --exclude .git --exclude tests --exclude docs --exclude '*.o' --exclude '*.lo' --exclude '.libs' /repo/ $S/repo/
+python3 - "$S/repo/$file" "$old" "$new" <<'PY'
 import sys
 f,old,new=sys.argv[1:4]
 s=open(f).read()
@@ -14,7 +17,7 @@ if s.count(old)!=1:
 open(f,'w').write(s.replace(old,new))
 PY
 rc=$?
-if [ $rc -ne 0 ]; then git checkout -- "$file"; exit $rc; fi
-cd /verif && ./check "$prop" --budget "$budget" 2>&1 | grep -E "VIOLATION|class=|runs|PROBLEM" | head -8
-rm -rf /verif/replays/$prop/violation-*
-git -C /repo checkout -- "$file"
+if [ $rc -ne 0 ]; then rm -rf $S; exit $rc; fi
+cd /verif && VERIF_REPO=$S/repo VERIF_BUILD=$S/build VERIF_OUT=$S/out ./check "$prop" --budget "$budget" 2>&1 | grep -E "VIOLATION|class=|runs|PROBLEM|FAILED|error" | head -12
+mkdir -p /tmp/mut-keep/$prop && cp -f $S/out/replays/$prop/*.json /tmp/mut-keep/$prop/ 2>/dev/null
+rm -rf $S
